@@ -337,7 +337,10 @@ def check_input(inp, res, C, scale, variant, light, kinds=None):
 
     def rec(call, j, exp, got, extra=None):
         m = {"kind": "query", "what": call, "call": call, "inp": inp, "scale": scale, "variant": variant, "kinds": list(kinds),
-             "query": None if j is None else Q[j], "expected": bits_to_list(exp) if isinstance(exp, int) else exp,
+             "query": None if j is None else Q[j],
+             # the rows around the query in the batch (replay puts them into an array of the same kind)
+             "window": None if j is None else [j - max(0, j - 2), Q[max(0, j - 2):j + 3]],
+             "expected": bits_to_list(exp) if isinstance(exp, int) else exp,
              "observed": bits_to_list(got) if isinstance(got, int) else got}
         if extra:
             m.update(extra)
@@ -977,8 +980,10 @@ def replay(record):
         out = {"call": call, "expected": record["expected"]}
         n = len(inp[0])
         if kinds and record.get("query") is not None:
-            # the query point in an array of the recorded kind (row 0 of a one-row array)
-            qk = make_array(scaled([record["query"]], scale, kinds[1]), kinds[1])[0][0]
+            # the query point in an array of the recorded kind, with its neighbours in the batch
+            # (the memory around a point matters for defects in the handling of strides)
+            pos, rows = record.get("window") or [0, [record["query"]]]
+            qk = make_array(scaled(rows, scale, kinds[1]), kinds[1])[0][pos]
         else:
             qk = None
         if call in ("get_atoms", "get_atoms_single") and record.get("query") is not None:
